@@ -13,7 +13,12 @@ pub fn make_case(class: &str, seed: u64, case_no: u64) -> Case {
   let exact = class.contains("exact") || (class.contains("any") && rng.chance(2, 5));
   let soak = class.contains("soak");
   let big = soak || rng.chance(1, 10);
-  let o = GenOpts { max_tasks: if big { 16 } else if rng.chance(1, 4) { 10 } else { 6 }, exact_only: exact, max_ops: if big { 7 } else { 5 } };
+  // One case in 40 is "huge" (up to 40 tasks with up to 24 operations over up to 12 resources): fan-in / fan-out and
+  // dependency counts beyond any small inline capacity or threshold. Drawn from a separate stream so that all other
+  // cases stay what they were.
+  let huge = !soak && Rng::derive(seed ^ 0x4875_6765, case_no).chance(1, 40);
+  let o = if huge { let _ = rng.chance(1, 4); GenOpts { max_tasks: 40, exact_only: exact, max_ops: 24, max_src: 6, max_gen: 6 } }
+    else { GenOpts { max_tasks: if big { 16 } else if rng.chance(1, 4) { 10 } else { 6 }, exact_only: exact, max_ops: if big { 7 } else { 5 }, max_src: 3, max_gen: 3 } };
   let prog = gen::gen_program(&mut rng, &o);
   let init = gen::gen_init(&mut rng, &prog);
   let hc = if class.starts_with("td") { HistClass::TopDown } else if class.starts_with("pure") { HistClass::PureBottomUp } else { HistClass::Mixed };
